@@ -18,9 +18,22 @@ ID = "C05"
 
 
 def helpers():
-    parse = getattr(NMEA2000Decoder, "_extract_header", None)
-    build = getattr(NMEA2000Encoder, "_build_header", None)
-    return parse, build
+    """the library's identifier helpers; an exception they raise becomes a result that equals no expected value"""
+    parse0 = getattr(NMEA2000Decoder, "_extract_header", None)
+    build0 = getattr(NMEA2000Encoder, "_build_header", None)
+
+    def guard(fn, arity_out):
+        if fn is None:
+            return None
+
+        def g(*a):
+            try:
+                return fn(*a)
+            except Exception as ex:  # noqa: BLE001
+                r = f"raised {type(ex).__name__}: {ex}"
+                return (r,) * arity_out if arity_out > 1 else r
+        return g
+    return guard(parse0, 4), guard(build0, 1)
 
 
 def _task_ids(args):
